@@ -101,6 +101,7 @@ type Run struct {
 	FaultTape *tape.Tape
 	CancelAt  int // call number before which ctx is cancelled (BreadthSearch honours it)
 	Cancel    context.CancelFunc
+	ErrShape  int                 // what accompanies an injected error: 0 nil result, 1 a usable non-nil result, 2 a typed nil pointer
 	ErrText   int                 // text of injected errors: 0 unique sentinel, 1 "", 2 blanks, 3 sentinel + newline
 	Yield     func(method string) // scheduler hook (C06); nil otherwise
 	Errors    []*SimError
@@ -116,6 +117,7 @@ func (t *Run) Reset() {
 	t.Cancel = nil
 	t.Errors = nil
 	t.ErrText = 0
+	t.ErrShape = 0
 }
 
 // View is a node seen through a run: the xpath.Entry handed to the machine.
@@ -432,9 +434,23 @@ func (n *Node) resolve(path *sdcpb.Path) (*Node, string) {
 	return cur, ""
 }
 
+// withErr decides what a failing call hands back next to its error. Go code
+// must look at the error first; a tree that also returns its closest entry, a
+// last-known value or a nil *T wrapped in the interface is within the contract.
+func (v *View) withErr(err error) (xpath.Entry, error) {
+	switch v.R.ErrShape {
+	case 1:
+		return &View{Node: v.Node, R: v.R}, err
+	case 2:
+		var none *View
+		return none, err
+	}
+	return nil, err
+}
+
 func (v *View) Navigate(path *sdcpb.Path) (xpath.Entry, error) {
 	if err := v.enter("Navigate", PathString(path)); err != nil {
-		return nil, err
+		return v.withErr(err)
 	}
 	r, why := v.Node.resolve(path)
 	if r == nil {
@@ -445,6 +461,9 @@ func (v *View) Navigate(path *sdcpb.Path) (xpath.Entry, error) {
 
 func (v *View) GetValue() (xpath.Datum, error) {
 	if err := v.enter("GetValue", ""); err != nil {
+		if v.R.ErrShape == 1 {
+			return v.Node.datum(), err // e.g. a last-known value
+		}
 		return nil, err
 	}
 	return v.Node.datum(), nil
@@ -482,7 +501,7 @@ func (v *View) Copy() xpath.Entry {
 func (v *View) FollowLeafRef() (xpath.Entry, error) {
 	n := v.Node
 	if err := v.enter("FollowLeafRef", ""); err != nil {
-		return nil, err
+		return v.withErr(err)
 	}
 	if n.Kind != LeafRef {
 		return nil, v.natural("FollowLeafRef", "notleafref")
